@@ -3,6 +3,9 @@ package props
 import (
 	"fmt"
 	"go/ast"
+	"go/parser"
+	"go/token"
+	"path/filepath"
 	"sort"
 	"strings"
 
@@ -31,7 +34,7 @@ func init() {
 			"CARM: FormatCSVValue per TypeID writes nothing for NULL, strconv renderings with exact parameters for Int/Float/Boolean from the matching payload, strings verbatim. " +
 			"CROW: cell i from values[i] with the builder reset between cells, the csv writer's error returned, header = field names in order, Close flushes. PAN5: every value-level TypeID has an arm.",
 		NotDecided: []string{
-			"byte-for-byte correctness of fastjson's string escaping and of encoding/csv's quoting (library code, taken as given)",
+			"byte-for-byte correctness of encoding/csv's quoting and of fastjson's escaping of the strings JSTR does not flag (library code)",
 			"sub-second precision of times (rendered as RFC3339) — the property names ints, floats, strings, NULL and containers",
 		},
 		Assumptions: []string{"fastjson.Arena constructors and strconv render what they are given faithfully"},
@@ -44,10 +47,14 @@ func runC25(c *core.Ctx) {
 	c.Rule("CARM", "csv: each value kind rendered exactly from the matching payload")
 	c.Rule("CROW", "csv: cells, header, error and flush")
 	c.Rule("PAN5", "TypeID switches are exhaustive")
+	c.Rule("JSTR", "strings are marshalled by a JSON escaper")
+	c.Rule("NAMES", "output column names stay distinct")
 	checkJSONValueArms(c)
 	checkJSONRow(c)
+	checkJSONStringEscaper(c)
 	checkCSVValueArms(c)
 	checkCSVRow(c)
+	checkOutputNames(c)
 	n, _ := checkEnumSwitches(c, []string{"outputs/formats"}, func(name string) bool {
 		return strings.Contains(name, "ValueToJson") || strings.Contains(name, "FormatCSVValue")
 	})
@@ -665,4 +672,158 @@ func checkCSVRow(c *core.Ctx) {
 	c.Decide(hdr && wr && flush, "CROW", "outputs/formats.(*CSVFormatter).SetSchema/Close", sh.Decl.Pos(), 3, "header = field names in order; Close flushes",
 		fmt.Sprintf("the csv header must list the field names position by position and be written, and Close must flush the writer (header names=%v, written=%v, flush=%v)", hdr, wr, flush))
 	_ = sort.Strings
+}
+
+// checkJSONStringEscaper: the String arm hands the text to fastjson's Arena.NewString; what reaches the output is
+// decided by that library's marshaller.  Its source (the version the build resolves) is read: the routine that writes
+// string values must not fall back to a Go-syntax quoter (strconv.Quote/AppendQuote emit \x01, \a, \v, \U0001F600 —
+// none of which JSON knows).
+func checkJSONStringEscaper(c *core.Ctx) {
+	p := c.Prog
+	pkg := p.Pkg("outputs/formats")
+	key := "github.com/valyala/fastjson.escapeString"
+	if pkg == nil {
+		c.Unknown("JSTR", key, 0, "package outputs/formats not found")
+		return
+	}
+	dep := pkg.Imports["github.com/valyala/fastjson"]
+	if dep == nil || len(dep.GoFiles) == 0 {
+		c.Unknown("JSTR", key, 0, "the fastjson sources the build resolves were not found")
+		return
+	}
+	fset := token.NewFileSet()
+	var found *ast.FuncDecl
+	for _, f := range dep.GoFiles {
+		file, err := parser.ParseFile(fset, f, nil, 0)
+		if err != nil {
+			continue
+		}
+		for _, d := range file.Decls {
+			if fd, ok := d.(*ast.FuncDecl); ok && fd.Recv == nil && fd.Name.Name == "escapeString" {
+				found = fd
+			}
+		}
+	}
+	if found == nil {
+		c.Unknown("JSTR", key, 0, "fastjson has no escapeString (library changed): the string marshaller must be re-identified")
+		return
+	}
+	goQuote := ""
+	ast.Inspect(found.Body, func(n ast.Node) bool {
+		if call, ok := n.(*ast.CallExpr); ok {
+			if f := core.ExprStr(call.Fun); f == "strconv.AppendQuote" || f == "strconv.Quote" || f == "strconv.AppendQuoteToASCII" || f == "strconv.QuoteToASCII" {
+				goQuote = f
+			}
+		}
+		return true
+	})
+	pos := fset.Position(found.Pos())
+	c.Decide(goQuote == "", "JSTR", key, 0, 1, "string values are written by a JSON escaper",
+		fmt.Sprintf("string values are marshalled by fastjson.escapeString (%s:%d), which falls back to %s for any string holding a quote, backslash or control byte: control characters, invalid UTF-8 and non-printable astral runes come out as \\x01, \\a, \\U0001…, which is not JSON", filepath.Base(pos.Filename), pos.Line, goQuote))
+}
+
+// checkOutputNames: WithoutQualifiers shortens "table.column" to "column" only when that short name is unique; with two
+// columns sharing a short name the JSON object would carry one key twice (the later value replaces the earlier).
+// Also: the csv writer keeps its default record format (UseCRLF drops carriage returns inside fields).
+func checkOutputNames(c *core.Ctx) {
+	p := c.Prog
+	fn := p.Func("outputs/formats", "WithoutQualifiers")
+	key := "outputs/formats.WithoutQualifiers"
+	if fn == nil {
+		c.Unknown("NAMES", key, 0, "anchor not found")
+		return
+	}
+	c.SawFunc(key)
+	pname := fn.Decl.Type.Params.List[0].Names[0].Name
+	for _, sc := range []struct {
+		name  string
+		count int64
+	}{{"short name unique", 1}, {"short name shared by two columns", 2}} {
+		sc := sc
+		in := newInterp(p, fn)
+		in.MaxPaths = 2000
+		in.Hooks.Loop = func(st *absint.State, loop ast.Stmt) *absint.LoopSpec {
+			return &absint.LoopSpec{Cases: []string{"FIELD"}, MaxIter: 1, MinIter: 1, RefStep: func(ref, cs string) string { return "" }}
+		}
+		in.Hooks.Index = func(st *absint.State, x, i absint.Val) (absint.Val, bool) {
+			// a table looked up by a column's short name: how many columns share it
+			if strings.Contains(i.Canon(), "SHORT(") {
+				return absint.Int(sc.count), true
+			}
+			return nil, false
+		}
+		in.Hooks.Call = func(st *absint.State, call *ast.CallExpr, callee string, recv absint.Val, args []absint.Val) (absint.Val, bool) {
+			switch {
+			case strings.HasPrefix(callee, "value:") && len(args) == 1:
+				return absint.S("SHORT(" + args[0].Canon() + ")"), true
+			case callee == "strings.Contains":
+				return nil, false
+			case callee == "strings.SplitN", callee == "strings.Split":
+				return absint.S("SPLIT(" + args[0].Canon() + ")"), true
+			}
+			return nil, false
+		}
+		outs, err := runDecl(in, fn, nil, "")
+		ckey := key + "/" + sc.name
+		if err != nil {
+			c.Unknown("NAMES", ckey, fn.Decl.Pos(), err.Error())
+			continue
+		}
+		bad := ""
+		n := 0
+		for _, o := range outs {
+			if o.Kind != "return" {
+				continue
+			}
+			for _, e := range o.Events {
+				if !strings.HasPrefix(e.Name, "store ") || !strings.Contains(e.Name, "[") || len(e.Args) != 1 {
+					continue
+				}
+				nm := o.Field(e.Args[0], "Name")
+				ty := o.Field(e.Args[0], "Type")
+				if nm == nil || ty == nil {
+					continue
+				}
+				n++
+				full := strings.HasPrefix(nm.Canon(), pname+"[") && strings.HasSuffix(nm.Canon(), "].Name")
+				if sc.count > 1 && !full {
+					bad = fmt.Sprintf("two columns share a short name, yet the output name is %s instead of the qualified name: the JSON object gets the same key twice and one value is lost", o.Show(nm))
+				}
+				if !strings.HasPrefix(ty.Canon(), pname+"[") || !strings.HasSuffix(ty.Canon(), "].Type") {
+					bad = "the output field must keep the input field's type, has " + o.Show(ty)
+				}
+			}
+		}
+		if bad == "" && n == 0 {
+			bad = "no output field is stored"
+		}
+		c.Decide(bad == "", "NAMES", ckey, fn.Decl.Pos(), len(outs), "qualified name kept unless the short one is unique", bad)
+	}
+	// csv writer configuration
+	nSet, badSet := 0, ""
+	for _, fr := range p.AllFuncs("outputs/formats", "outputs/eager") {
+		info := fr.Info()
+		ast.Inspect(fr.Decl.Body, func(n ast.Node) bool {
+			as, ok := n.(*ast.AssignStmt)
+			if !ok {
+				return true
+			}
+			for i, l := range as.Lhs {
+				se, ok := l.(*ast.SelectorExpr)
+				if !ok {
+					continue
+				}
+				t := info.TypeOf(se.X)
+				if t == nil || !strings.HasSuffix(strings.TrimPrefix(t.String(), "*"), "encoding/csv.Writer") {
+					continue
+				}
+				nSet++
+				if se.Sel.Name == "UseCRLF" && i < len(as.Rhs) && core.ExprStr(as.Rhs[i]) != "false" {
+					badSet = fmt.Sprintf("%s: %s = %s — with UseCRLF encoding/csv drops every carriage return inside a field", p.Pos(as.Pos()), core.ExprStr(l), core.ExprStr(as.Rhs[i]))
+				}
+			}
+			return true
+		})
+	}
+	c.Decide(badSet == "", "CROW", "outputs/formats/csv writer settings", 0, nSet+1, "the csv writer keeps byte-preserving settings", "string cells must survive byte for byte: "+badSet)
 }
